@@ -1166,8 +1166,10 @@ impl LZDiff {
             }
         }
 
-        // Remaining bases are literals
-        est_cost += text_size - i;
+        // Remaining bases are literals. `i` is advanced by the backward-extended length without being
+        // rewound (see above), so after a back-extended match near the end it can exceed text_size:
+        // there are no remaining bases then (a plain subtraction underflowed here).
+        est_cost += text_size.saturating_sub(i);
 
         est_cost
     }
